@@ -301,6 +301,21 @@ fn patterns(k: u64) -> Vec<u64> {
     v
 }
 
+/// byte-structured values (see `run_endian`)
+fn structured(rng: &mut Rng, k: u64) -> u64 {
+    let b = |rng: &mut Rng| *rng.pick(&[0u64, 0, 1, 0x7f, 0x80, 0xff, 0xa5]) | if rng.chance(1, 3) { rng.below(256) } else { 0 };
+    let bytes: Vec<u64> = match rng.below(7) {
+        0 => { let h: Vec<u64> = (0..k / 2).map(|_| b(rng)).collect(); h.iter().chain(h.iter()).cloned().collect() }            // identical halves
+        1 => { let x = b(rng); let y = b(rng); (0..k).map(|i| if i % 2 == 0 { x } else { y }).collect() }                         // repeated pairs
+        2 => { let h: Vec<u64> = (0..k / 2).map(|_| b(rng)).collect(); h.iter().chain(h.iter().rev()).cloned().collect() }      // palindrome
+        3 => { let z = 1 + rng.below(k - 1); (0..k).map(|i| if i < z { 0 } else { 1 + rng.below(255) }).collect() }              // zero low bytes
+        4 => { let z = 1 + rng.below(k - 1); (0..k).map(|i| if i >= k - z { 0 } else { 1 + rng.below(255) }).collect() }         // zero high bytes
+        5 => { let j = rng.below(k); let x = b(rng); (0..k).map(|i| if i == j { 1 + rng.below(255) } else { x }).collect() }     // one odd byte
+        _ => (0..k).map(|_| b(rng)).collect(),
+    };
+    bytes.iter().enumerate().fold(0u64, |acc, (i, x)| acc | ((x & 0xff) << (8 * i)))
+}
+
 pub fn run_endian(rec: &mut Rec, rng: &mut Rng, n_random: usize, all16: bool, thorough32: bool) {
     let mut go = |rec: &mut Rec, o: &str, k: u64, sz: bool, v: u64, n: u64, nt: bool| {
         let line = format!("e.wrap o={} k={} sz={} v={} n={}", o, k, sz as u8, v, n);
@@ -328,8 +343,18 @@ pub fn run_endian(rec: &mut Rec, rng: &mut Rng, n_random: usize, all16: bool, th
         let o = *rng.pick(&["le", "be"]);
         let (k, sz) = *rng.pick(&[(4u64, false), (8, false), (8, true), (2, false)]);
         let mask = if k == 8 { u64::MAX } else { (1u64 << (8 * k)) - 1 };
-        let v = rng.next() & mask;
-        let n = if rng.chance(1, 2) { v } else { rng.next() & mask };
+        // half of the values are structured at the byte level: repeated halves / quarters / bytes, zero low or high
+        // bytes, byte palindromes, one odd byte — the shapes for which byte order "does not matter" shortcuts go wrong
+        let v = if rng.chance(1, 2) { rng.next() & mask } else { structured(rng, k) & mask };
+        let bits = 8 * k as u32;
+        let rot = |x: u64, r: u32| if bits == 64 { x.rotate_left(r) } else { ((x << r) | (x >> (bits - r))) & mask };
+        let n = match rng.below(6) {
+            0 | 1 => v,
+            2 => v.swap_bytes() >> (64 - bits),
+            3 => rot(v, bits / 2),
+            4 => rot(v.swap_bytes() >> (64 - bits), bits / 2),
+            _ => rng.next() & mask,
+        };
         go(rec, o, k, sz, v, n, true);
         if rng.chance(1, 4) {
             let b = rng.bytes(k as usize);
